@@ -168,7 +168,7 @@ def run(ctx):
                        "def f0():\n    a = dds.keep('/v/p', prod)\n    b = dds.keep('/v/r', reader)\n    c = dds.load('/v/p')\n"
                        "    return term('f0', repr(a), b, repr(c))\n" % (expr, ["", "    import dds\n", "    from dds import load\n    import dds\n"][fi % 3],
                           # where the load sits in the statement: alone, as a keyword argument, inside a display, in a conditional expression
-                          LOAD_FORMS[fi % len(LOAD_FORMS)]))
+                          LOAD_FORMS[(fi + 1) % len(LOAD_FORMS)]))
                 os.makedirs(os.path.join(base, pkg), exist_ok=True)
                 open(os.path.join(base, pkg, "__init__.py"), "w").close()
                 with open(os.path.join(base, pkg, "main.py"), "w") as fh:
@@ -183,7 +183,7 @@ def run(ctx):
                 res.nontrivial("falsy %s step %d" % (falsy, step))
                 if rr.get("error") is not None:
                     continue
-                if "path=" in LOAD_FORMS[fi % len(LOAD_FORMS)] and r["error"] is not None and r["error"].get("kind") == "dds":
+                if "path=" in LOAD_FORMS[(fi + 1) % len(LOAD_FORMS)] and r["error"] is not None and r["error"].get("kind") == "dds":
                     res.count("load_with_keyword_path_refused")
                     continue
                 if r["error"] is not None or r["value"] != rr["value"]:
